@@ -117,8 +117,8 @@ Lemma walk_cons fuel g s f rest :
   match lookup f g with
   | None => cont (walk fuel g s rest) TUnknown
   | Some fd =>
-      if mem f (finished s) then cont (walk fuel g s rest) (TRef (f_name fd))
-      else if mem f (asked s) then cont (walk fuel g s rest) (TRec (f_name fd))
+      if mem f (finished s) then cont (walk fuel g s rest) (TRef (f_name fd) (ordinal f (asked s)))
+      else if mem f (asked s) then cont (walk fuel g s rest) (TRec (f_name fd) (ordinal f (asked s)))
       else match fuel with
            | O => OutOfFuel
            | S fuel' =>
@@ -181,11 +181,11 @@ Proof.
     destruct (lookup f g) as [fd|] eqn:Hl.
     + destruct (mem f (finished s)) eqn:Hfm.
       * destruct (walk 0 g s rest) as [ts0 s0|] eqn:E; [|discriminate]. inversion H; subst.
-        apply (winv_cont g s f rest 0%nat (TRef (f_name fd)) s ts0 s' IHr Hfa); same_state; try exact E.
+        apply (winv_cont g s f rest 0%nat (TRef (f_name fd) (ordinal f (asked s))) s ts0 s' IHr Hfa); same_state; try exact E.
         intros _. apply Hfa. apply mem_In. exact Hfm.
       * destruct (mem f (asked s)) eqn:Ham; [|discriminate].
         destruct (walk 0 g s rest) as [ts0 s0|] eqn:E; [|discriminate]. inversion H; subst.
-        apply (winv_cont g s f rest 0%nat (TRec (f_name fd)) s ts0 s' IHr Hfa); same_state; try exact E.
+        apply (winv_cont g s f rest 0%nat (TRec (f_name fd) (ordinal f (asked s))) s ts0 s' IHr Hfa); same_state; try exact E.
         intros _. apply mem_In. exact Ham.
     + destruct (walk 0 g s rest) as [ts0 s0|] eqn:E; [|discriminate]. inversion H; subst.
       apply (winv_cont g s f rest 0%nat TUnknown s ts0 s' IHr Hfa); same_state; try exact E.
@@ -196,11 +196,11 @@ Proof.
     destruct (lookup f g) as [fd|] eqn:Hl.
     + destruct (mem f (finished s)) eqn:Hfm.
       * destruct (walk (S fuel) g s rest) as [ts0 s0|] eqn:E; [|discriminate]. inversion H; subst.
-        apply (winv_cont g s f rest (S fuel) (TRef (f_name fd)) s ts0 s' IHr Hfa); same_state; try exact E.
+        apply (winv_cont g s f rest (S fuel) (TRef (f_name fd) (ordinal f (asked s))) s ts0 s' IHr Hfa); same_state; try exact E.
         intros _. apply Hfa. apply mem_In. exact Hfm.
       * destruct (mem f (asked s)) eqn:Ham.
         -- destruct (walk (S fuel) g s rest) as [ts0 s0|] eqn:E; [|discriminate]. inversion H; subst.
-           apply (winv_cont g s f rest (S fuel) (TRec (f_name fd)) s ts0 s' IHr Hfa); same_state; try exact E.
+           apply (winv_cont g s f rest (S fuel) (TRec (f_name fd) (ordinal f (asked s))) s ts0 s' IHr Hfa); same_state; try exact E.
            intros _. apply mem_In. exact Ham.
         -- (* enter f *)
            destruct (walk fuel g (mkSt (f :: asked s) (finished s)) (f_mentions fd)) as [children s1|] eqn:Ech; [|discriminate].
@@ -281,6 +281,14 @@ Section Renaming.
     destruct (N.eqb_spec (f k) (f a)) as [E|_]; [apply f_inj in E; contradiction|reflexivity].
   Qed.
 
+  Lemma ordinal_ren k l : ordinal (f k) (map f l) = ordinal k l.
+  Proof.
+    induction l as [|a l IH]; simpl; [reflexivity|].
+    rewrite IH, map_length.
+    destruct (N.eqb_spec k a) as [->|Hne]; [rewrite N.eqb_refl; reflexivity|].
+    destruct (N.eqb_spec (f k) (f a)) as [E|_]; [apply f_inj in E; contradiction|reflexivity].
+  Qed.
+
   Lemma cont_ren r t : ren_res (cont r t) = cont (ren_res r) t.
   Proof. destruct r; reflexivity. Qed.
 
@@ -291,13 +299,13 @@ Section Renaming.
       induction fs as [|x rest IHr]; intros s; try reflexivity.
     - cbn [map]. rewrite !walk_cons, lookup_ren.
       destruct (lookup x g) as [fd|]; cbn [option_map].
-      + cbn [ren_st asked finished ren_fn f_name]. rewrite !mem_ren.
+      + cbn [ren_st asked finished ren_fn f_name]. rewrite !mem_ren, !ordinal_ren.
         destruct (mem x (finished s)); [rewrite cont_ren, <- IHr; reflexivity|].
         destruct (mem x (asked s)); [rewrite cont_ren, <- IHr; reflexivity|reflexivity].
       + rewrite cont_ren, <- IHr. reflexivity.
     - cbn [map]. rewrite !walk_cons, lookup_ren.
       destruct (lookup x g) as [fd|]; cbn [option_map].
-      + cbn [ren_st asked finished ren_fn f_name f_code f_mentions]. rewrite !mem_ren.
+      + cbn [ren_st asked finished ren_fn f_name f_code f_mentions]. rewrite !mem_ren, !ordinal_ren.
         destruct (mem x (finished s)); [rewrite cont_ren, <- IHr; reflexivity|].
         destruct (mem x (asked s)); [rewrite cont_ren, <- IHr; reflexivity|].
         change (mkSt (f x :: map f (asked s)) (map f (finished s))) with (ren_st (mkSt (x :: asked s) (finished s))).
